@@ -6,6 +6,7 @@ run by Coq on exactly the inputs pushed through the real operator (hot source,
 conforming and non-conforming, raising callbacks); oracle: the Python list
 computation, evaluated directly on the implementation's output."""
 import json
+import random
 
 import k2
 import lib
@@ -15,7 +16,11 @@ from lib import gz, glist, gbool, gopt
 IMPORTS = "Base.Prelude Base.CaseLib Ops.Machine Ops.Elementwise"
 
 
-def ops_table(values=None):
+def ops_table(values=None, extended=False):
+    """name -> generator(rng) of operator instances.  The default table is shared with C01/C02/C03/C08/C09
+    (inputs: pool values, machine type `mealy Z ty`); `extended=True` (C05 only) adds the generators whose
+    inputs are not plain pool values (notification objects, tuples, dicts, attribute records) or whose
+    result is a literal None (default_if_empty())."""
     import reactivex as rx
     from reactivex import operators as ops
     from reactivex.notification import OnNext, OnError, OnCompleted
@@ -55,13 +60,24 @@ def ops_table(values=None):
 
     Z = dict(ty="Z", eqb="Z.eqb", enc=idenc, poolvals=True)
 
+    class IdIdx:
+        """the default of map_indexed(): (value, index) -> value"""
+        @staticmethod
+        def call2(v, i):
+            return v
+
     def g_map(rng):
         f = k2.rand_map(rng, pool)
+        if rng.random() < 0.12:        # ops.map(): `mapper or identity`
+            return dict(py=ops.map(), coq="op_map (fun x => Ok x)", spec=("map", lambda v: v), **Z)
         return dict(py=ops.map(f), coq=f"op_map {f.gallina()}", spec=("map", f), **Z)
     reg("map", g_map)
 
     def g_map_indexed(rng):
         f = idx_map(rng)
+        if rng.random() < 0.12:        # ops.map_indexed(): `mapper_indexed or _identity`
+            return dict(py=ops.map_indexed(), coq="op_map_indexed (fun x _ => Ok x)",
+                        spec=("map_indexed", IdIdx), **Z)
         return dict(py=ops.map_indexed(f.call2), coq=f"op_map_indexed {f.gallina2()}", spec=("map_indexed", f), **Z)
     reg("map_indexed", g_map_indexed)
 
@@ -116,29 +132,43 @@ def ops_table(values=None):
     eq_cmp = (f"(fun a b => match {cls_tbl} a, {cls_tbl} b with Ok x, Ok y => Ok (x =? y) "
               f"| _, _ => Raise 0 end)")
 
+    def rand_cmp(rng):
+        """equality comparer over pool values, symmetric in its arguments: either an arbitrary relation (may
+        raise) given by a predicate table on (id a + id b) mod K, or the equivalence 'same id modulo m'.
+        -> (python callable, Gallina text, ref(a, b) -> ('ok', bool) | ('raise', code))"""
+        if rng.random() < 0.5:
+            m = rng.choice([2, 3, 4])
+            ref = lambda a, b: ("ok", pool.id(a) % m == pool.id(b) % m)
+            g = f"(fun a b => Ok ((a mod {m}) =? (b mod {m})))"
+        else:
+            p = k2.rand_pred(rng, pool)
+            ref = lambda a, b: p.at((pool.id(a) + pool.id(b)) % K)
+            g = f"(fun a b => {p.gallina()} ((a + b) mod {K}))"
+
+        def cmp(a, b):
+            k2.CALLS.append(k2.CURRENT_TAG[0])
+            r = ref(a, b)
+            if r[0] == "raise":
+                raise UserError(r[1])
+            return r[1]
+        return cmp, g, ref
+
     def g_distinct(rng):
-        mode = rng.choice(["plain", "key", "cmp"])
+        mode = rng.choice(["plain", "key", "cmp", "keycmp"])
         if mode == "plain":
             return dict(py=ops.distinct(), coq=f"op_distinct (fun x => Ok x) {eq_cmp}", spec=("distinct",), **Z)
         if mode == "key":
             f = k2.rand_map(rng, pool)
             return dict(py=ops.distinct(f), coq=f"op_distinct {f.gallina()} {eq_cmp}", spec=("distinct_key", f), **Z)
-        # comparer that may raise: defined on (a+b) mod K
-        p = k2.rand_pred(rng, pool)
-
-        def cmp(a, b):
-            j = (pool.id(a) + pool.id(b)) % K
-            r = p.at(j)
-            if r[0] == "raise":
-                raise UserError(r[1])
-            return r[1]
-        return dict(py=ops.distinct(None, cmp),
-                    coq=f"op_distinct (fun x => Ok x) (fun a b => {p.gallina()} ((a + b) mod {K}))",
-                    spec=("distinct_cmp", p), **Z)
+        # user comparer, alone or together with a key mapper (then it sees the keys)
+        f = k2.rand_map(rng, pool) if mode == "keycmp" else None
+        cmp, g, ref = rand_cmp(rng)
+        return dict(py=ops.distinct(f, cmp), coq=f"op_distinct {f.gallina() if f else '(fun x => Ok x)'} {g}",
+                    spec=("distinct_" + mode, f, ref), **Z)
     reg("distinct", g_distinct)
 
     def g_duc(rng):
-        mode = rng.choice(["plain", "key", "cmp"])
+        mode = rng.choice(["plain", "key", "cmp", "keycmp"])
         if mode == "plain":
             return dict(py=ops.distinct_until_changed(),
                         coq=f"op_distinct_until_changed (fun x => Ok x) {eq_cmp}", spec=("duc",), **Z)
@@ -146,17 +176,11 @@ def ops_table(values=None):
             f = k2.rand_map(rng, pool)
             return dict(py=ops.distinct_until_changed(f),
                         coq=f"op_distinct_until_changed {f.gallina()} {eq_cmp}", spec=("duc_key", f), **Z)
-        p = k2.rand_pred(rng, pool)
-
-        def cmp(a, b):
-            j = (pool.id(a) + pool.id(b)) % K
-            r = p.at(j)
-            if r[0] == "raise":
-                raise UserError(r[1])
-            return r[1]
-        return dict(py=ops.distinct_until_changed(None, cmp),
-                    coq=f"op_distinct_until_changed (fun x => Ok x) (fun a b => {p.gallina()} ((a + b) mod {K}))",
-                    spec=("duc_cmp", p), **Z)
+        f = k2.rand_map(rng, pool) if mode == "keycmp" else None
+        cmp, g, ref = rand_cmp(rng)
+        return dict(py=ops.distinct_until_changed(f, cmp),
+                    coq=f"op_distinct_until_changed {f.gallina() if f else '(fun x => Ok x)'} {g}",
+                    spec=("duc_" + mode, f, ref), **Z)
     reg("distinct_until_changed", g_duc)
 
     def g_pairwise(rng):
@@ -232,6 +256,116 @@ def ops_table(values=None):
         return dict(py=ops.materialize(), coq="op_materialize", ty="(ev Z)", eqb="(ev_eqb Z.eqb)", enc=enc,
                     spec=("materialize",))
     reg("materialize", g_materialize)
+    if not extended:
+        return pool, T
+
+    # ------------------------------------------------------------------ C05 only
+    def tail(rng, ins, extra):
+        """terminal / non-conforming tail exactly as k2.gen_inputs does it"""
+        t = rng.random()
+        if t < 0.55:
+            ins.append(("C",))
+        elif t < 0.85:
+            ins.append(("E", UserError(rng.choice([11, 12]))))
+        if rng.random() >= 0.8:
+            for _ in range(rng.randint(1, 3)):
+                ins.append(rng.choice([("N", extra(rng)), ("C",), ("E", UserError(13))]))
+        return ins
+
+    def lengths(rng, maxlen):
+        return rng.choice([0, 1, 1, 2, 2, 3, 3, 4, 5, maxlen])
+
+    # default_if_empty(): the default is a literal None
+    if any(v is None for v in pool.values):
+        reg("default_if_empty()", lambda rng: dict(py=ops.default_if_empty(),
+                                                   coq=f"op_default_if_empty {gz(pool.id(None))}",
+                                                   spec=("default_if_empty", None), **Z))
+
+    # _dematerialize.py: the ELEMENTS are notification objects
+    def g_dematerialize(rng):
+        def notif(rng):
+            r = rng.random()
+            if r < 0.82:
+                return OnNext(pool.val(rng.randrange(K)))
+            if r < 0.91:
+                return OnCompleted()
+            return OnError(UserError(rng.choice([15, 16])))
+
+        def gen_inputs(rng, maxlen=7):
+            return tail(rng, [("N", notif(rng)) for _ in range(lengths(rng, maxlen))], notif)
+
+        def enc_in(n):
+            if isinstance(n, OnNext):
+                return f"(Next {gz(pool.id(n.value))})"
+            if isinstance(n, OnError):
+                return f"(Err {gz(k2.err_id(n.exception))})"
+            return "Done"
+        return dict(py=ops.dematerialize(), coq="op_dematerialize", in_ty="(ev Z)", enc_in=enc_in,
+                    gen_inputs=gen_inputs, spec=("dematerialize",), **Z)
+    reg("dematerialize", g_dematerialize)
+
+    # starmap: map(lambda values: mapper(*values)); the elements are tuples
+    def g_starmap(rng):
+        f = k2.rand_map(rng, pool)
+        noarg = rng.random() < 0.15
+
+        def f2(a, b):
+            return f(pool.val((pool.id(a) + pool.id(b)) % K))
+
+        def tup(rng):
+            n = 2 if (noarg or rng.random() < 0.9) else rng.choice([1, 3])   # wrong arity: TypeError in the list computation too
+            return tuple(pool.val(rng.randrange(K)) for _ in range(n))
+
+        def gen_inputs(rng, maxlen=7):
+            return tail(rng, [("N", tup(rng)) for _ in range(lengths(rng, maxlen))], tup)
+        enc_in = lambda t: glist([pool.id(v) for v in t])
+        if noarg:                      # starmap(): the tuple is passed on unchanged
+            return dict(py=ops.starmap(), coq="op_map (fun l : list Z => Ok l)", in_ty="(list Z)", enc_in=enc_in,
+                        gen_inputs=gen_inputs, ty="(list Z)", eqb="(list_eqb Z.eqb)", enc=enc_in,
+                        spec=("starmap", None))
+        coq = (f"op_map (fun l : list Z => match l with [a; b] => {f.gallina()} ((a + b) mod {K}) "
+               f"| _ => Raise {gz(k2.LIB_ERRORS['TypeError'])} end)")
+        return dict(py=ops.starmap(f2), coq=coq, in_ty="(list Z)", enc_in=enc_in, gen_inputs=gen_inputs,
+                    spec=("starmap", f2), **Z)
+    reg("starmap", g_starmap)
+
+    # pluck / pluck_attr: map(lambda x: x[key]) / map(lambda x: getattr(x, prop)); the elements are dicts with
+    # (falsy) pool values as keys / attribute records
+    hashable_ids = [i for i, v in enumerate(pool.values) if not isinstance(v, (list, dict))]
+    ATTRS = ["a", "b", "c"]
+
+    def g_pluck(rng):
+        import types
+        attr = rng.random() < 0.3
+        if attr:
+            want = rng.choice(ATTRS)
+
+            def elem(rng):
+                names = [n for n in ATTRS if rng.random() < 0.7]
+                return types.SimpleNamespace(**{n: pool.val(rng.randrange(K)) for n in names})
+            enc_in = lambda o: "[" + "; ".join(f"({ATTRS.index(n)}, {gz(pool.id(v))})"
+                                               for n, v in sorted(vars(o).items())) + "]"
+            want_id, exn, py = ATTRS.index(want), k2.LIB_ERRORS["AttributeError"], ops.pluck_attr(want)
+        else:
+            kid = rng.choice(hashable_ids[:8])         # the looked-up key: mostly None / 0 / False / '' / () / 0.0
+            want = pool.val(kid)
+
+            def elem(rng):
+                ks = [kid] if rng.random() < 0.8 else []
+                ks += [rng.choice(hashable_ids) for _ in range(rng.choice([0, 1, 2]))]
+                rng.shuffle(ks)
+                return {pool.val(k): pool.val(rng.randrange(K)) for k in ks}
+            # a dict is rendered as (equality class of the key, id of the value): Python merges equal keys (0, False, 0.0)
+            enc_in = lambda d: "[" + "; ".join(f"({pool.cls[pool.id(k)]}, {gz(pool.id(v))})" for k, v in d.items()) + "]"
+            want_id, exn, py = pool.cls[kid], k2.LIB_ERRORS["KeyError"], ops.pluck(want)
+
+        def gen_inputs(rng, maxlen=7):
+            return tail(rng, [("N", elem(rng)) for _ in range(lengths(rng, maxlen))], elem)
+        coq = (f"op_map (fun d : list (Z * Z) => match find (fun kv => fst kv =? {want_id}) d with "
+               f"Some kv => Ok (snd kv) | None => Raise {gz(exn)} end)")
+        return dict(py=py, coq=coq, in_ty="(list (Z * Z))", enc_in=enc_in, gen_inputs=gen_inputs,
+                    spec=("pluck_attr" if attr else "pluck", want), **Z)
+    reg("pluck", g_pluck)
     return pool, T
 
 
@@ -397,6 +531,71 @@ def expected(spec, xs, term, pool):
                     has, last = True, key
                     out.append((k + 1, x))
         return out, src_end()
+    if name in ("distinct_cmp", "distinct_keycmp", "duc_cmp", "duc_keycmp"):
+        # user comparer (on the keys), optionally with a key mapper.  Judged only when, on the keys of THIS
+        # input, the comparer never raises and is an equivalence relation: then every reading of "distinct
+        # according to the comparer" gives the same list (otherwise: model comparison only)
+        keyf, ref = spec[1], spec[2]
+        keys = []
+        for k, x in enumerate(xs):
+            if keyf is not None:
+                try:
+                    keys.append(keyf(x))
+                except UserError as e:
+                    end = (k + 1, ("E", e.code))
+                    break
+            else:
+                keys.append(x)
+        rel = {}
+        for i, a in enumerate(keys):
+            for j, b in enumerate(keys):
+                r = ref(a, b)
+                if r[0] == "raise":
+                    return None
+                rel[(i, j)] = bool(r[1])
+        n_ = len(keys)
+        if not (all(rel[(i, i)] for i in range(n_))
+                and all(rel[(i, j)] == rel[(j, i)] for i in range(n_) for j in range(n_))
+                and all(rel[(i, l)] for i in range(n_) for j in range(n_) for l in range(n_)
+                        if rel[(i, j)] and rel[(j, l)])):
+            return None
+        for k in range(n_):
+            if name.startswith("distinct"):
+                if not any(rel[(j, k)] for j in range(k)):
+                    out.append((k + 1, xs[k]))
+            elif k == 0 or not rel[(k - 1, k)]:
+                out.append((k + 1, xs[k]))
+        return out, end or src_end()
+    if name == "dematerialize":
+        from reactivex.notification import OnNext, OnError
+        for k, n in enumerate(xs):
+            if isinstance(n, OnNext):
+                out.append((k + 1, n.value))
+            elif isinstance(n, OnError):
+                return out, (k + 1, ("E", k2.err_id(n.exception)))
+            else:
+                return out, (k + 1, "C")
+        return out, src_end()
+    if name == "starmap":
+        fn = spec[1]
+        for k, t in enumerate(xs):
+            try:
+                out.append((k + 1, t if fn is None else fn(*t)))
+            except UserError as e:
+                return out, (k + 1, ("E", e.code))
+            except TypeError:
+                return out, (k + 1, ("E", k2.LIB_ERRORS["TypeError"]))
+        return out, src_end()
+    if name in ("pluck", "pluck_attr"):
+        want = spec[1]
+        for k, x in enumerate(xs):
+            try:
+                out.append((k + 1, x[want] if name == "pluck" else getattr(x, want)))
+            except KeyError:
+                return out, (k + 1, ("E", k2.LIB_ERRORS["KeyError"]))
+            except AttributeError:
+                return out, (k + 1, ("E", k2.LIB_ERRORS["AttributeError"]))
+        return out, src_end()
     return None   # no independent oracle for this variant (model comparison only)
 
 
@@ -426,10 +625,77 @@ def same(a, b):
     return repr(a) == repr(b) and type(a) == type(b)
 
 
+def g_ins(inst, ins, ipool):
+    """Gallina rendering of the pushed notifications (elements through the instance's own encoder, if any)"""
+    enc_in = inst.get("enc_in")
+    if enc_in is None:
+        return k2.g_inputs(ins, ipool)
+
+    def one(ev):
+        if ev[0] == "N":
+            return f"Next {enc_in(ev[1])}"
+        if ev[0] == "E":
+            return f"Err {gz(k2.err_id(ev[1]))}"
+        return "Done"
+    return "[" + "; ".join(one(e) for e in ins) + "]"
+
+
+def gen_case(pool, T, name, case_seed, maxlen=7, gen_inputs=None):
+    """everything about one case is drawn from its own seed (recorded in the replay file)"""
+    rng = random.Random(case_seed)
+    inst = T[name](rng)
+    ipool = inst.get("pool", pool)
+    if inst.get("gen_inputs") is not None:
+        ins = inst["gen_inputs"](rng, maxlen)
+    else:
+        ins = (gen_inputs or k2.gen_inputs)(rng, ipool, maxlen=maxlen)
+    warm = None
+    if rng.random() < 0.4:
+        if inst.get("gen_inputs") is not None:
+            warm = inst["gen_inputs"](rng, 3)[:4]
+        elif hasattr(ipool, "values") and not hasattr(ipool, "_ids"):
+            warm = ([("N", rng.choice(ipool.values)) for _ in range(rng.choice([1, 2, 3]))]
+                    + rng.choice([[], [("E", k2.UserError(14))], [("C",)]]))
+        else:
+            warm = k2.gen_warmup(rng, ipool)
+    return inst, ipool, ins, warm
+
+
+def judge(name, inst, ipool, ins, warm, expected):
+    """run one case on the implementation and evaluate the oracle -> dict"""
+    res = k2.run_hot(lambda s: s.pipe(inst["py"]), ins, warmup=warm)
+    if res["build_error"] is not None:
+        raise RuntimeError(f"{name}: build error {res['build_error']!r}")
+    # conforming prefix = what the statement quantifies over
+    xs, term, conforming = [], None, True
+    for j, e in enumerate(ins):
+        if e[0] == "N":
+            xs.append(e[1])
+        else:
+            term = "C" if e[0] == "C" else e[1].code
+            conforming = (j == len(ins) - 1)
+            break
+    exp = expected(inst["spec"], xs, term, ipool)
+    got = canon_out(res, inst["spec"], ipool)
+    ok = None
+    if exp is not None:
+        eo, ee = exp
+        ok = (len(eo) == len(got[0]) and all(a[0] == b[0] and same(a[1], b[1]) for a, b in zip(eo, got[0]))
+              and ee == got[1])
+    return dict(res=res, xs=xs, term=term, conforming=conforming, exp=exp, got=got, ok=ok)
+
+
 def run(chk):
     chk.build_and_prove()
-    pool, T = ops_table()
+    pool, T = ops_table(extended=True)
     run_table(chk, "C05", pool, T, expected, IMPORTS)
+    chk.cov["rule"] += ("; the table includes (C05 only) dematerialize over notification objects (OnNext / OnError / "
+                        "OnCompleted elements, elements after an inner terminal), starmap over tuples (2 arguments, "
+                        "10% wrong arity; starmap() without mapper), pluck over dicts keyed by falsy pool values and "
+                        "pluck_attr over attribute records (missing key / attribute), map() / map_indexed() / "
+                        "default_if_empty() without argument, distinct / distinct_until_changed with key mapper AND "
+                        "comparer; comparer variants are judged by the list oracle when the comparer raises on no "
+                        "pair of keys of the input")
     return chk.finish(trusted_extra=["hot-source K2 driver (harness/k2.py); callback tables mirrored in Gallina"])
 
 
@@ -437,84 +703,67 @@ def run_table(chk, pid, pool, T, expected, IMPORTS, in_ty="Z", ncase=None, maxle
     """generic K2 loop over a table of operator-instance generators"""
     import reactivex
     ncase = ncase or (40 if chk.tier == "quick" else 400)
-    gal = {}      # per (ty,eqb) group of cases
+    gal = {}      # per (in_ty,ty,eqb) group of cases
     per_op = {}
     meta = []
     nontrivial = set()
-    term_hist = {"C": 0, "E": 0, "none": 0, "nonconforming": 0, "callback_raises": 0}
-    for name, gen in T.items():
+    variants = {}
+    term_hist = {"C": 0, "E": 0, "none": 0, "nonconforming": 0, "callback_raises": 0, "resubscribed": 0,
+                 "judged_by_list_oracle": 0, "model_only": 0}
+    for name in T:
         per_op[name] = 0
         for ci in range(ncase):
-            inst = gen(chk.rng)
-            ins = (gen_inputs or k2.gen_inputs)(chk.rng, inst.get("pool", pool), maxlen=maxlen)
-            snapshot = inst.get("snapshot")
-            warm = None
-            if chk.rng.random() < 0.4:
-                ip = inst.get("pool", pool)
-                warm = ([("N", chk.rng.choice(ip.values)) for _ in range(chk.rng.choice([1, 2, 3]))]
-                        + chk.rng.choice([[], [("E", k2.UserError(14))], [("C",)]])) if hasattr(ip, "values") and not hasattr(ip, "_ids") \
-                    else k2.gen_warmup(chk.rng, ip)
-                term_hist["resubscribed"] = term_hist.get("resubscribed", 0) + 1
-            res = k2.run_hot(lambda s: s.pipe(inst["py"]), ins, warmup=warm)
+            case_seed = chk.rng.getrandbits(48)
+            inst, ipool, ins, warm = gen_case(pool, T, name, case_seed, maxlen, gen_inputs)
+            if warm is not None:
+                term_hist["resubscribed"] += 1
+            j = judge(name, inst, ipool, ins, warm, expected)
+            res, xs, term, exp, got = j["res"], j["xs"], j["term"], j["exp"], j["got"]
             chk.cov["evaluations"] += 1
             per_op[name] += 1
-            if res["build_error"] is not None:
-                raise RuntimeError(f"{name}: build error {res['build_error']!r}")
-            # conforming prefix = what the statement quantifies over
-            xs, term, conforming = [], None, True
-            for j, e in enumerate(ins):
-                if e[0] == "N":
-                    xs.append(e[1])
-                else:
-                    term = "C" if e[0] == "C" else e[1].code
-                    conforming = (j == len(ins) - 1)
-                    break
+            vkey = f"{name}:{inst['spec'][0]}"
+            variants[vkey] = variants.get(vkey, 0) + 1
             term_hist["C" if term == "C" else ("none" if term is None else "E")] += 1
-            if not conforming:
+            if not j["conforming"]:
                 term_hist["nonconforming"] += 1
-            ipool = inst.get("pool", pool)
-            sig = f"{name}|{inst['coq']}|{k2.g_inputs(ins, ipool)}"
+            gi = g_ins(inst, ins, ipool)
+            sig = f"{name}|{inst['coq']}|{gi}"
+            rep = {"table": pid, "operator": name, "case_seed": case_seed, "instance": inst["coq"],
+                   "inputs (ids into pool)": gi, "pool": [repr(v) for v in getattr(ipool, "values", [])]}
             # --- oracle: python list computation (well-formed prefix; later inputs must change nothing)
-            exp = expected(inst["spec"], xs, term, ipool)
-            got = canon_out(res, inst["spec"], ipool)
             if res["escapes"]:
                 chk.violation(f"escape|{name}|{type(res['escapes'][0][1]).__name__}",
-                              {"operator": name, "instance": inst["coq"], "inputs": k2.g_inputs(ins, ipool),
-                               "escaped": [(t, repr(e)) for t, e in res["escapes"]],
-                               "expected": "no exception propagates into the emitter"}, size=len(ins))
+                              dict(rep, escaped=[(t, repr(e)) for t, e in res["escapes"]],
+                                   expected="no exception propagates into the emitter"), size=len(ins))
             elif exp is not None:
                 eo, ee = exp
-                ok = (len(eo) == len(got[0]) and all(a[0] == b[0] and same(a[1], b[1]) for a, b in zip(eo, got[0]))
-                      and ee == got[1])
-                if ok and eo and len(xs) > 1:
+                term_hist["judged_by_list_oracle"] += 1
+                if j["ok"] and eo and len(xs) > 1:
                     nontrivial.add(sig)
-                if any(e[1] == ("E", c) for e in [ee] if e for c in (21, 22, 31, 32)):
+                if any(e[1] == ("E", c) for e in [ee] if e for c in (21, 22, 31, 32, 51, 52, 53)):
                     term_hist["callback_raises"] += 1
-                if not ok:
-                    chk.violation(f"list-semantics|{name}|{k2.g_inputs(ins, ipool)}|{inst['coq'][:60]}",
-                                  {"operator": name, "instance": inst["coq"],
-                                   "inputs (ids into pool)": k2.g_inputs(ins, ipool),
-                                   "pool": [repr(v) for v in pool.values],
-                                   "implementation (tag, value)": repr(got), "expected": repr(exp),
-                                   "oracle": "equivalent Python list computation, outputs tagged with the "
-                                             "input that determines them"}, size=len(ins))
+                if not j["ok"]:
+                    chk.violation(f"list-semantics|{name}|{gi}|{inst['coq'][:60]}",
+                                  dict(rep, **{"implementation (tag, value)": repr(got), "expected": repr(exp),
+                                               "oracle": "equivalent Python list computation, outputs tagged with "
+                                                         "the input that determines them"}), size=len(ins))
+            else:
+                term_hist["model_only"] += 1
             # --- model side
             enc = inst["enc"]
             if inst.get("find_enc"):
                 # find emits None both as 'absent' and as a found None element: decide by tag
-                def enc2(v, _enc=enc, _res=res, _n=len(xs)):
-                    return _enc(v)
                 last_tag = res["out"][0][0] if res["out"] else None
                 enc.none_is_absent = (term == "C" and last_tag == len(xs) + 1)
-            key = (inst["ty"], inst["eqb"])
-            gal.setdefault(key, []).append(
-                (f"({inst['coq']}, {k2.g_inputs(ins, ipool)})", k2.g_out(res, enc)))
-            meta.append((key, len(gal[key]) - 1, name, inst["coq"], k2.g_inputs(ins, ipool)))
+            ity = inst.get("in_ty", in_ty)
+            key = (ity, inst["ty"], inst["eqb"])
+            gal.setdefault(key, []).append((f"({inst['coq']}, {gi})", k2.g_out(res, enc)))
+            meta.append((key, len(gal[key]) - 1, name, inst["coq"], gi))
     total_bad = 0
-    for (ty, eqb), cases in gal.items():
-        prelude = (f"Definition model (c : mealy {in_ty} {ty} * list (ev {in_ty})) := exec (fst c) (snd c).\n")
-        bad, logs = lib.correspondence(pid, "k2_" + str(abs(hash((ty, eqb))) % 10**6), IMPORTS,
-                                       f"(mealy {in_ty} {ty} * list (ev {in_ty})) * list (nat * ev {ty})",
+    for (ity, ty, eqb), cases in gal.items():
+        prelude = (f"Definition model (c : mealy {ity} {ty} * list (ev {ity})) := exec (fst c) (snd c).\n")
+        bad, logs = lib.correspondence(pid, "k2_" + str(abs(hash((ity, ty, eqb))) % 10**6), IMPORTS,
+                                       f"(mealy {ity} {ty} * list (ev {ity})) * list (nat * ev {ty})",
                                        "model", f"(tagged_eqb {eqb})", cases, prelude=prelude)
         chk.cov["traces_validated_against_impl"] += len(cases)
         chk.cov["disagreements_checked"] += len(cases)
@@ -524,18 +773,38 @@ def run_table(chk, pid, pool, T, expected, IMPORTS, in_ty="Z", ncase=None, maxle
             detail = {"n": len(bad), "first (machine+inputs, implementation output)": firsts, "logs": logs[:1]}
             if firsts:
                 detail["model_says"] = lib.coq_show(pid, IMPORTS, f"model {firsts[0][0]}", prelude)
-            chk.tie_broken(f"correspondence K2 ({ty}): machine vs implementation", detail)
+            chk.tie_broken(f"correspondence K2 ({ity} -> {ty}): machine vs implementation", detail)
     chk.cov["distinct_nontrivial"] = len(nontrivial)
     chk.cov["rule"] = ("per operator: seeded random instance (callback tables over a 16-value pool headed by the "
                        "falsy values; ~15% raising callbacks) x seeded input (0..7 elements, completion/error/"
                        "no terminal, 20% non-conforming tails); non-trivial = distinct (operator instance, input) "
                        "with >=2 source elements, a non-empty expected output and the oracle satisfied")
-    chk.cov["input_distribution"] = {"per_operator": per_op, "terminals": term_hist}
+    chk.cov["input_distribution"] = {"per_operator": per_op, "per_variant": variants, "terminals": term_hist}
     chk.cov["operators_modelled"] = sorted(T)
     chk.add_samples([{"operator": m[2], "machine": m[3], "inputs": m[4]}
                      for m in meta[::max(1, len(meta) // 5)]])
 
 
+def replay_table(chk, path, pid, pool, T, expected, gen_inputs=None):
+    """re-generate the recorded case from its seed, run it on the current tree, re-evaluate the oracle"""
+    d = json.load(open(path))
+    if "case_seed" not in d or d.get("operator") not in T:
+        print(json.dumps(d, indent=1))
+        return 1
+    name = d["operator"]
+    inst, ipool, ins, warm = gen_case(pool, T, name, d["case_seed"], 7, gen_inputs)
+    j = judge(name, inst, ipool, ins, warm, expected)
+    print(f"[{pid}] replay {name}  machine: {inst['coq']}")
+    print(f"  inputs        : {g_ins(inst, ins, ipool)}" + ("   (after an abandoned earlier subscription)" if warm else ""))
+    print(f"  implementation: {j['got']!r}   escapes: {[(t, repr(e)) for t, e in j['res']['escapes']]}")
+    print(f"  expected      : {j['exp']!r}")
+    if j["res"]["escapes"] or j["ok"] is False:
+        print(f"VIOLATION property={pid} replay={path}")
+        return 1
+    print(f"[{pid}] the recorded case no longer fails on the current tree")
+    return 0
+
+
 def replay(chk, path):
-    print(open(path).read())
-    return 1
+    pool, T = ops_table(extended=True)
+    return replay_table(chk, path, "C05", pool, T, expected)
